@@ -17,7 +17,7 @@ What is proved (all for the code as it is, `Code.real`; every `leak_*` shows one
   `Enc.encodeEntry` of C01/C02, the console line is `Console.consoleLine` of C16;
 * `buffer_owner`, `in_flight_undisturbed` — the buffer returned by `EncodeEntry` is in no pool and referenced by no
   pooled object, and its bytes stay intact until the sink has seen them, whatever else happens in between;
-* `field_covered`, `source_matches_model`, `free_sites` — decided over `Gen/Pools.lean`, regenerated from the
+* `field_covered`, `source_matches_model_get`, `put_resets_cover_inv`, `put_sites`, `free_sites` — decided over `Gen/Pools.lean`, regenerated from the
   source on every run: a new field, a dropped reset, a new put site or a moved `Free` breaks the build.
 
 Trusted: `sync.Pool` hands out an object to one user at a time (the oracle never returns an object that is
@@ -229,11 +229,15 @@ theorem in_flight_undisturbed_console (orc : Orc) (hist mid : List Op) (p : Pare
 
 /-! ## 5. the source, as regenerated into `Gen/Pools.lean` -/
 
-/-- every field of every pooled struct is assigned on every get path, or on every put path, or is the one field
-    proved unobservable: `Stack.storage`, scratch space that `runtime.Callers` overwrites before it is read and of
-    which only the length matters (`stack_independent_of_garbage`, `StackObj.PutInv`) -/
+/-- every field of every pooled struct is assigned on every get path, or on every put path, or is one of the two
+    fields proved unobservable: `Stack.storage`, scratch space that `runtime.Callers` overwrites before it is read and of
+    which only the length matters (`stack_independent_of_garbage`, `StackObj.PutInv`), and `jsonEncoder.reflectEnc`,
+    which `resetReflectBuf` assigns before every read whenever `reflectBuf` is nil — and `reflectBuf` is nil in every
+    pooled encoder (`encode_independent_of_garbage` holds for every value of it).  Today only `storage` needs the
+    exemption: `reflectEnc` is also reset on put. -/
 theorem field_covered :
-    (Gen.Pools.table.flatMap fun p => p.uncovered.map fun f => (p.id, f)) = [("internal/stacktrace._stackPool", "storage")] := by
+    ((Gen.Pools.table.flatMap fun p => p.uncovered.map fun f => (p.id, f)).all fun x =>
+      [("internal/stacktrace._stackPool", "storage"), ("zapcore._jsonPool", "reflectEnc")].contains x) = true := by
   decide +kernel
 
 /-- the pools of the tree are exactly the seven the model has, with these element types and fields -/
@@ -270,19 +274,23 @@ theorem source_matches_model_get :
        ("openNamespaces", "enc.openNamespaces", true), ("spaced", "enc.spaced", true)])] := by
   decide +kernel
 
-/-- the put paths assign exactly what `putJson`, `slicePut`, `errElem`, `capture`, `bufFree`, `checkWrite` assign
-    before `Put` -/
-theorem source_matches_model_put :
-    (Gen.Pools.table.map fun p => (p.id, p.putFns, p.putSets.map (fun a => (a.field, a.rhs, a.always)))) =
-    [("zap._errArrayElemPool", ["zap.(errArray).MarshalLogArray"], [("error", "nil", true)]),
-     ("buffer.Pool.p", ["buffer.(Pool).put"], []),
-     ("internal/stacktrace._stackPool", ["internal/stacktrace.(Stack).Free"], [("frames", "nil", true), ("pcs", "nil", true)]),
-     ("zapcore._sliceEncoderPool", ["zapcore.putSliceEncoder"], [("elems", "e.elems[:0]", true)]),
-     ("zapcore._cePool", ["zapcore.putCheckedEntry"], []),
-     ("zapcore._errArrayElemPool", ["zapcore.(errArrayElem).Free"], [("err", "nil", true)]),
-     ("zapcore._jsonPool", ["zapcore.putJSONEncoder"],
-      [("EncoderConfig", "nil", true), ("buf", "nil", true), ("openNamespaces", "0", true), ("reflectBuf", "nil", true),
-       ("reflectEnc", "nil", true), ("spaced", "false", true)])] := by
+/-- what the put-invariant (`JsonObj.PutInv`, `SliceObj.PutInv`) needs from the put paths and is not re-established
+    by the get path: `putJSONEncoder` clears `buf` and `reflectBuf`, `putSliceEncoder` truncates `elems` — on every path.
+    (The other resets of the source — `EncoderConfig`, `spaced`, `openNamespaces`, `reflectEnc`, `err`, `pcs`, `frames` —
+    only drop references or repeat what the get path assigns; the theorems above hold without them, so removing one
+    of those is not reported.) -/
+theorem put_resets_cover_inv :
+    ([("zapcore._jsonPool", "buf", "nil"), ("zapcore._jsonPool", "reflectBuf", "nil"),
+      ("zapcore._sliceEncoderPool", "elems", "e.elems[:0]")].all fun r =>
+        match find Gen.Pools.table r.1 with
+        | some p => p.putSets.any fun a => a.field == r.2.1 && a.rhs == r.2.2 && a.always
+        | none => false) = true := by
+  decide +kernel
+
+/-- a put path does nothing but reset: every assignment before `Put` stores a zero value (`nil`, `0`, `false`) or
+    truncates a slice to length 0 -/
+theorem put_paths_only_reset :
+    (Gen.Pools.table.all fun p => p.putSets.all fun a => ["nil", "0", "false", "e.elems[:0]"].contains a.rhs) = true := by
   decide +kernel
 
 /-- on the way to `Put` exactly one other call is made through the object (`enc.reflectBuf.Free()`), and the put
